@@ -225,8 +225,65 @@ class BytesShim(metaclass=_BytesMeta):
 # ---------------------------------------------------------------------------
 
 
+class StructObj:
+    """stands for a precompiled struct.Struct(fmt) object"""
+
+    def __init__(self, fmt):
+        self.format = fmt
+        self.size = _struct.calcsize(fmt)
+
+    def pack(self, *vs):
+        return StructShim().pack(self.format, *vs)
+
+    def unpack(self, b):
+        return StructShim().unpack(self.format, b)
+
+    def unpack_from(self, b, offset=0):
+        if isinstance(b, SymBytes) and not b.is_concrete():
+            return StructShim().unpack(self.format, b[offset : offset + self.size])
+        return _struct.unpack_from(self.format, b, offset)
+
+    def iter_unpack(self, b):
+        if isinstance(b, SymBytes) and not b.is_concrete():
+            if len(b) % self.size:
+                raise _struct.error("iterative unpacking requires a buffer of a multiple of %d bytes" % self.size)
+            return iter([StructShim().unpack(self.format, b[i : i + self.size]) for i in range(0, len(b), self.size)])
+        return _struct.iter_unpack(self.format, b)
+
+
+def rewrap_struct_objects(mod):
+    """struct.Struct objects created at import time (before the model was in place) are C objects that would realise a proxy silently:
+    replace them, also inside module-level dicts / lists, by the model"""
+    n = 0
+
+    def conv(v):
+        nonlocal n
+        if isinstance(v, _struct.Struct):
+            n += 1
+            return StructObj(v.format)
+        return v
+
+    for name, val in list(vars(mod).items()):
+        if isinstance(val, _struct.Struct):
+            setattr(mod, name, conv(val))
+        elif type(val) is dict:
+            for k in list(val):
+                val[k] = conv(val[k])
+        elif type(val) is list:
+            val[:] = [conv(x) for x in val]
+        elif type(val) is tuple and any(isinstance(x, _struct.Struct) for x in val):
+            setattr(mod, name, tuple(conv(x) for x in val))
+    return n
+
+
 class StructShim:
     error = _struct.error
+
+    def Struct(self, fmt):
+        return StructObj(fmt)
+
+    def calcsize(self, fmt):
+        return _struct.calcsize(fmt)
     _ints = {"<I": (4, False), "<i": (4, True), "<Q": (8, False), "<q": (8, True)}
 
     def __getattr__(self, name):
@@ -413,6 +470,7 @@ def install_core(mod):
     from .symjson import JsonShim
 
     mod.json = JsonShim()
+    rewrap_struct_objects(mod)
     return [
         "betterproto.json -> dumps checks serialisability like json and returns an opaque text carrying the value tree it parses back to (keys stringified, one NaN); loads returns that tree",
         "betterproto.BytesIO -> list-backed stream model",
